@@ -150,8 +150,9 @@ def _c10_vm_sample(d, tier, coq, build, want=150):
 
 CONFIG = {
     "properties_file": "Properties/C10.v",
-    "proof_files": ["Base/Prelude.v", "Proofs/OciCrash.v"],
+    "proof_files": ["Base/Prelude.v", "Proofs/OciCrash.v", "Proofs/OciGC.v", "Proofs/OciCrashGC.v"],
     "model_files": ["Generated/GC10.v", "Model/OciCrash.v", "Model/OciCrashSpec.v"],
+    "also_translate": ["C09"],
     "extract": "XC10.v",
     "ml_main": "c10_main.ml",
     "harness": "c10",
